@@ -18,8 +18,9 @@ Section Sim.
   Variable H : smap hobj.
   Variable ce : list upval.
   Variable ar : smap arr.
+  Variable tk : list (Z * Z).
 
-  Definition xm (m : mach) : xmach := mkX m C H ce [] ar.
+  Definition xm (m : mach) : xmach := mkX m C H ce [] ar tk.
 
   Definition lift (o : outcome) : xoutcome :=
     match o with
@@ -69,7 +70,15 @@ Section Sim.
     apply nth_error_In in E. specialize (Hp false E). discriminate.
   Qed.
 
-  Lemma free_ext : forall k op ew, rd1 (p_ext p) k <> Some (ExtArr op ew).
+  Lemma free_ext : forall k, match rd1 (p_ext p) k with Some (ExtArr _ _) | Some ExtSched => False | _ => True end.
+  Proof.
+    intros k. destruct (rd1 (p_ext p) k) as [[code arity| |op ew|]|] eqn:E; try exact I.
+    all: unfold closure_free in Hfree; apply andb_true_iff in Hfree; destruct Hfree as [_ Hp];
+      rewrite forallb_forall in Hp; unfold rd1 in E; destruct (k <? lenN (p_ext p)); [|discriminate];
+      apply nth_error_In in E; specialize (Hp _ E); discriminate.
+  Qed.
+
+  Lemma free_ext_old : forall k op ew, rd1 (p_ext p) k <> Some (ExtArr op ew).
   Proof.
     intros k op ew E. unfold closure_free in Hfree. apply andb_true_iff in Hfree. destruct Hfree as [_ Hp].
     rewrite forallb_forall in Hp. unfold rd1 in E. destruct (k <? lenN (p_ext p)); [|discriminate].
@@ -105,8 +114,7 @@ Section Sim.
       pose proof (Hloc (UExt f0 nargs nret)) as H0. cbn [lstep] in H0.
       destruct (sget base m f0) as [iv|] eqn:Eiv.
       + pose proof (free_ext (Z.to_N iv)) as Hx.
-        destruct (rd1 (p_ext p) (Z.to_N iv)) as [[code arity| |aop aew]|] eqn:Ee; try (apply Hloc).
-        exfalso. eapply Hx. reflexivity.
+        destruct (rd1 (p_ext p) (Z.to_N iv)) as [[code arity| |aop aew|]|] eqn:Ee; try (apply Hloc); contradiction.
       + cbn [xcontinue lstep]. rewrite Eiv. reflexivity.
     - (* URet0 *)
       destruct (base =? 0); reflexivity.
@@ -130,7 +138,7 @@ Section Sim.
   Proof.
     intros fuel m. unfold xexec_main, exec_main. destruct (rd1 (p_funs p) 0) as [f|]; [|reflexivity].
     unfold xm at 1 2 3; cbn [x_core set_core].
-    change (mkX (mkMach (m_stack m) (m_globals m) 0 (repeat 0%Z (nn (f_ssize f)))) C H ce [] ar)
+    change (mkX (mkMach (m_stack m) (m_globals m) 0 (repeat 0%Z (nn (f_ssize f)))) C H ce [] ar tk)
       with (xm (mkMach (m_stack m) (m_globals m) 0 (repeat 0%Z (nn (f_ssize f))))).
     rewrite xrun_old. destruct (run A p fuel 0 1 0 _) as [n m'| | |]; reflexivity.
   Qed.
